@@ -114,3 +114,10 @@ def rules(t):
     out.append(rr_)
     out.append(W3.client_state_machine(t, "C20.h", "connected"))
     return out
+
+_rules_c20_w5 = rules
+def rules(t):
+    import rules.shared as shared
+    out = _rules_c20_w5(t)
+    shared.share(t, out, "C20.j", "one damaged or forged datagram does not cut a healthy session off: advance_sequence only behind the decrypt Ok-edge", "C04", ("C04.a2",))
+    return out
